@@ -29,7 +29,7 @@ func genBytes(seed uint64, n int) []byte {
 func qGen(seed uint64, n int) string { return fmt.Sprintf("(gen_bytes %d %d)", seed, n) }
 
 func macer(alg int, k []byte) (key.MACer, error) {
-	kk := key.Key{iana.KeyParameterKty: iana.KeyTypeSymmetric, iana.KeyParameterAlg: alg, iana.SymmetricKeyParameterK: k}
+	kk := key.Key{iana.KeyParameterKty: iana.KeyTypeSymmetric, iana.KeyParameterAlg: alg, iana.SymmetricKeyParameterK: k, iana.KeyParameterKid: []byte("kid-shared-by-all-keys")}
 	if alg >= 4 && alg <= 7 {
 		return hmac.New(kk)
 	}
